@@ -44,6 +44,7 @@ type IndepCase struct {
 	EncIndirect bool      `json:"encrypt_indirect,omitempty"` // /Encrypt is an indirect object
 	CFLength   int        `json:"cf_length,omitempty"`        // 0 = absent, else bytes
 	Objs       []IndepObj `json:"objs"`
+	UPadSeed   uint64     `json:"u_pad_seed,omitempty"` // R3/R4: non-zero = arbitrary bytes in /U[16:32]
 	RndSeed    uint64     `json:"rnd_seed"`
 	RenderSeed uint64     `json:"render_seed"` // 0 = canonical rendering
 
@@ -138,6 +139,11 @@ func checkIndep(c *IndepCase) error {
 	}
 	if c.RC4inV4 && c.R == 4 {
 		d.CFM["StdCF"] = "V2"
+	}
+	if (c.R == 3 || c.R == 4) && c.UPadSeed != 0 {
+		// Algorithm 5 (f): the last 16 bytes of /U are arbitrary padding and
+		// Algorithm 6 compares only the first 16
+		copy(d.U[16:], vt.NewRand(c.UPadSeed).Bytes(16))
 	}
 
 	// ---- build the document ----
@@ -308,6 +314,9 @@ var indepProp = &vt.Prop[IndepCase]{
 		c.XRefStream = rapid.Bool().Draw(t, "xrefstream")
 		c.EncIndirect = rapid.Bool().Draw(t, "encindirect")
 		c.RndSeed = rapid.Uint64().Draw(t, "rndseed")
+		if (c.R == 3 || c.R == 4) && rapid.Bool().Draw(t, "upad") {
+			c.UPadSeed = rapid.Uint64Min(1).Draw(t, "upadseed")
+		}
 		if rapid.Bool().Draw(t, "render") {
 			c.RenderSeed = rapid.Uint64Min(1).Draw(t, "renderseed")
 		}
@@ -361,6 +370,9 @@ var indepProp = &vt.Prop[IndepCase]{
 		}
 		if c.UserPW == "" {
 			cls = append(cls, "empty-user-password")
+		}
+		if c.UPadSeed != 0 {
+			cls = append(cls, "arbitrary-U-padding")
 		}
 		nt := false
 		for _, o := range c.Objs {
